@@ -44,7 +44,7 @@ def spec_cs(v):
     return ("return", b"\xff" + v.to_bytes(8, "little"))
 
 
-def check_writer(ctx):
+def check_writer(ctx, oid="C05.1"):
     R = ctx.R
     fi = ctx.fn(CS)
     ev = ctx.evaluator()
@@ -58,16 +58,16 @@ def check_writer(ctx):
         kind, val = rules.outcome(s)
         wk, wv = spec_cs(v)
         ok = (kind == wk) and (kind == "raise" or (isinstance(val, bytes) and val == wv))
-        R.check("C05.1", "DECISION-TABLE", fi, "integer region of %s" % (hex(v) if v >= 0 else v), ok,
+        R.check(oid, "DECISION-TABLE", fi, "integer region of %s" % (hex(v) if v >= 0 else v), ok,
                 "CompactSize of %s: expected %s, found %s %s" % (
                     v, "an error" if wk == "raise" else wv.hex(), kind,
                     val.hex() if isinstance(val, bytes) else tm.show(val)),
                 expected=str((wk, wv)), found=str((kind, val)), example="integer %d" % v)
         n += 1
-    R.floor("C05.1", n, 20, "compact_size_regions")
+    R.floor(oid, n, 20, "compact_size_regions")
 
 
-def check_reader(ctx):
+def check_reader(ctx, oid="C05.2"):
     R = ctx.R
     fi = ctx.fn(PCS)
     ev = ctx.evaluator()
@@ -87,11 +87,11 @@ def check_reader(ctx):
             want = (v, tm.slc(buf, 1, None))
         got_t = tuple(got) if isinstance(got, (list, tuple)) else got
         ok = isinstance(got_t, tuple) and len(got_t) == 2 and tm.veq(got_t[0], want[0]) and tm.veq(got_t[1], want[1])
-        R.check("C05.2", "DECISION-TABLE", fi, "first byte %d" % v, ok,
+        R.check(oid, "DECISION-TABLE", fi, "first byte %d" % v, ok,
                 "CompactSize reader for first byte %d: %s" % (v, tm.first_diff(got_t, want)),
                 expected=tm.show(want), found=tm.show(got), example="buffer starting with byte 0x%02x" % v)
     ev.bind = {}
-    R.floor("C05.2", len(reps), 6, "compact_size_reader_classes")
+    R.floor(oid, len(reps), 6, "compact_size_reader_classes")
 
 
 def check_writers_layout(ctx):
@@ -280,7 +280,7 @@ def s_env_after(lp, parser):
     return None
 
 
-def check_witness(ctx):
+def check_witness(ctx, oid="C05.4"):
     R = ctx.R
     fi = ctx.fn("bits.script.utils.script")
     ev = ctx.evaluator(opaque={CS, PCS})
@@ -292,7 +292,7 @@ def check_witness(ctx):
         for a in args:
             parts += [cs(tm.length(tm.unhex(a))), tm.unhex(a)]
         want = tm.cat(parts)
-        R.check("C05.4", "TERM-EQ", fi, "witness stack of %d items" % n_items, tm.veq(got, want),
+        R.check(oid, "TERM-EQ", fi, "witness stack of %d items" % n_items, tm.veq(got, want),
                 "witness stack serialisation: %s" % tm.first_diff(got, want), expected=tm.show(want), found=tm.show(got),
                 example="a witness item of 253 bytes or more")
     ev.assumptions = {}
@@ -305,12 +305,12 @@ def check_witness(ctx):
             isinstance(g, T) and g.op == "iter" for g in e.guard)]
         want0 = (cs(cnt) if parse else [], rest)
         ok = bool(empties) and tm.veq(tm.freeze(tuple(empties[0].value) if isinstance(empties[0].value, (list, tuple)) else empties[0].value), tm.freeze(want0))
-        R.check("C05.4", "DOM", fd, "empty witness stack (parse=%s) returns without consuming items" % parse, ok,
+        R.check(oid, "DOM", fd, "empty witness stack (parse=%s) returns without consuming items" % parse, ok,
                 "count 0 must return (%s, remainder after the count) before any item is read; found %s" % (
                     "count bytes" if parse else "[]", [tm.show(e.value)[:120] for e in empties] or "no such exit"),
                 example="a segwit transaction with an empty witness for one input")
         loops = [lp for lp in s.loops if lp.kind == "while" and lp.func == fd.qualname]
-        R.check("C05.4", "THREAD", fd, "item loop present (parse=%s)" % parse, len(loops) == 1, "expected one item loop")
+        R.check(oid, "THREAD", fd, "item loop present (parse=%s)" % parse, len(loops) == 1, "expected one item loop")
         if len(loops) != 1:
             continue
         lp = loops[0]
@@ -321,7 +321,7 @@ def check_witness(ctx):
             if tm.veq(val, tm.slc(r, n, None)):
                 remvar = var
                 break
-        R.check("C05.4", "THREAD", fd, "item length by CompactSize, remainder rebound (parse=%s)" % parse,
+        R.check(oid, "THREAD", fd, "item length by CompactSize, remainder rebound (parse=%s)" % parse,
                 remvar is not None,
                 "no variable is rebound to remainder[after cs length][len:] in the witness item loop; bodies: %s" % {
                     k: tm.show(v)[:100] for k, v in lp.body.items()},
@@ -331,20 +331,20 @@ def check_witness(ctx):
         acc = T("acc", (remvar, lp.depth), tm.BYTES)
         n, r = pcs(acc, 0), pcs(acc, 1)
         item = tm.hexs(tm.slc(r, None, n))
-        R.check("C05.4", "THREAD", fd, "item = first len bytes after the length (parse=%s)" % parse,
+        R.check(oid, "THREAD", fd, "item = first len bytes after the length (parse=%s)" % parse,
                 any(tm.contains(v, lambda t: tm.veq(t, item)) for v in lp.body.values()),
                 "decoded item is not remainder[:len]")
         # exits inside the loop when the count reaches zero return the rebound remainder
         inl = [e for e in s.returns() if any(isinstance(g, T) and g.op == "iter" for g in e.guard)]
         okr = bool(inl) and all(isinstance(e.value, (list, tuple)) and len(e.value) == 2 and tm.veq(
             e.value[1], tm.slc(r, n, None)) for e in inl)
-        R.check("C05.4", "THREAD", fd, "stack complete => return remainder after the last item (parse=%s)" % parse, okr,
+        R.check(oid, "THREAD", fd, "stack complete => return remainder after the last item (parse=%s)" % parse, okr,
                 "the return inside the item loop does not hand back the remainder after the last item")
         if parse and inl:
             # parsed bytes = count bytes + each item's prefix and data
             pb = inl[0].value[0]
             want_piece = tm.slc(acc, None, tm.add([tm.length(acc), tm.mul([-1, tm.length(r)]), n]))
-            R.check("C05.4", "TILE", fd, "parse=True returns exactly the consumed bytes",
+            R.check(oid, "TILE", fd, "parse=True returns exactly the consumed bytes",
                     tm.contains(pb, lambda t: tm.veq(t, want_piece)),
                     "consumed-bytes accumulation is not buffer[:len(buffer)-len(rest)+len(item)]: %s" % tm.show(pb)[:300])
 
